@@ -38,7 +38,8 @@ SYN = {
     "cmova": "cmova", "pushw": "push", "popw": "pop", "cdq": "cdq", "cwd": "cwd", "cwde": "cwde", "cbw": "cbw",
     "sysexitl": "sysexit", "sysretl": "sysret", "fxsavel": "fxsave", "leavew": "leave", "enterw": "enter",
     "pushaw": "pushaw", "popaw": "popaw", "sgdtd": "sgdt", "sgdtw": "sgdt", "sidtd": "sidt", "sidtw": "sidt",
-    "lgdtd": "lgdt", "lgdtw": "lgdt", "lidtd": "lidt", "lidtw": "lidt", "prefetchwt1": "prefetchwt1", "movabs": "mov",
+    "lgdtd": "lgdt", "lgdtw": "lgdt", "lidtd": "lidt", "lidtw": "lidt",
+    "jmpw": "jmp", "callw": "call", "ljmpw": "ljmp", "lcallw": "lcall", "loopew": "loope", "loopnew": "loopne", "loopel": "loope", "loopnel": "loopne", "prefetchwt1": "prefetchwt1", "movabs": "mov",
 }
 STRING = {"movs": "movs", "cmps": "cmps", "scas": "scas", "lods": "lods", "stos": "stos", "ins": "ins", "outs": "outs"}
 BRANCH = set(["jmp", "call", "loop", "loope", "loopne", "jecxz", "xbegin"] + ["j" + c for c in set(CC.values())])
